@@ -246,18 +246,8 @@ static void check_all(const std::string &s, Bufs &b, vx::Ctx &ctx, const char *f
     }
 }
 
-static const uint64_t MANT[64] = {
-    0x0000000000000ULL, 0x0000000000001ULL, 0xFFFFFFFFFFFFFULL, 0x8000000000000ULL, 0x5555555555555ULL, 0xAAAAAAAAAAAAAULL,
-    0x0000000000002ULL, 0xFFFFFFFFFFFFEULL, 0x7FFFFFFFFFFFFULL, 0x8000000000001ULL, 0x4000000000000ULL, 0xC000000000000ULL,
-    0x0000000100000ULL, 0x00000000FFFFFULL, 0x1000000000000ULL, 0x123456789ABCDULL, 0xFEDCBA9876543ULL, 0x0F0F0F0F0F0F0ULL,
-    0xF0F0F0F0F0F0FULL, 0x00000FFFFF000ULL, 0x999999999999AULL, 0x3333333333333ULL, 0x6666666666666ULL, 0xCCCCCCCCCCCCDULL,
-    0x0000000000003ULL, 0x0000000000007ULL, 0x00000000000FFULL, 0x000000000FFFFULL, 0x00000FFFFFFFFULL, 0x0FFFFFFFFFFFFULL,
-    0xE000000000000ULL, 0xF000000000000ULL, 0xFF00000000000ULL, 0xFFFF000000000ULL, 0xFFFFFFFF00000ULL, 0xFFFFFFFFFFFF0ULL,
-    0x0000000000010ULL, 0x0000000001000ULL, 0x0000001000000ULL, 0x0001000000000ULL, 0x0100000000000ULL, 0x2000000000000ULL,
-    0x2AAAAAAAAAAAAULL, 0xD555555555555ULL, 0x1C71C71C71C71ULL, 0xE38E38E38E38EULL, 0x249249249249ULL, 0xDB6DB6DB6DB6DULL,
-    0x400000000000ULL, 0x7FFFFFFFFFFFEULL, 0x8000000000002ULL, 0xBFFFFFFFFFFFFULL, 0x4000000000001ULL, 0x921FB54442D18ULL,
-    0x5BF0A8B145769ULL, 0x6A09E667F3BCDULL, 0x9E3779B97F4A8ULL, 0x0000000000005ULL, 0x0000000000009ULL, 0xFFFFFFFFFFFFDULL,
-    0xFFFFFFFFFFFFBULL, 0x38E38E38E38E4ULL, 0xC71C71C71C71CULL, 0x1111111111111ULL};
+#include "mant_patterns.hpp"
+
 
 // exact decimal expansion of a long double in exponent form "d.ddd...e[-]X" without trailing zeros
 static std::string exact_dec(long double x) {
